@@ -109,9 +109,19 @@ func (n NoteEvent) Kind() EventKind {
 
 func (n NoteEvent) Title() string {
 	if n.Kind() == EventTitleChanged {
-		return getNewTitle(n.Body)
+		return cleanupTitle(getNewTitle(n.Body))
 	}
 	return text.CleanupOneLine(n.Body)
+}
+
+// cleanupTitle makes a title coming from Gitlab acceptable for git-bug: no
+// control characters, and not empty.
+func cleanupTitle(title string) string {
+	title = text.CleanupOneLine(title)
+	if text.Empty(title) {
+		return emptyTitlePlaceholder
+	}
+	return title
 }
 
 var _ Event = &LabelEvent{}
